@@ -192,8 +192,10 @@ class Ctx:
             else:
                 self.errors.append(AnalysisError(rid, "idiom", str(e)))
         except AnalysisError as e:
-            if e.rule in ("?", "ANCHOR"):
-                e = AnalysisError(rid, e.construct, e.reason)
+            # an error raised inside a shared engine (library parser, PEG model, pipeline ...) carries the engine's tag:
+            # it is charged to the rule that needed the engine - a rule that could not run must never count as silent
+            if e.rule != rid:
+                e = AnalysisError(rid, e.construct if e.rule in ("?", "ANCHOR") else f"{e.rule}:{e.construct}", e.reason)
             self.errors.append(e)
         except Exception as e:  # internal error of the checker: exit 2
             tb = traceback.format_exc(limit=6)
